@@ -271,6 +271,10 @@ def tracer_attribution_history(ctx: Ctx, repo: Repo, rule: str) -> None:
          [{"co_filename": K("/src/app/a/mod.py")}, {"co_filename": K("/src/app/b/mod.py")}]),
         ("a function of the same name defined elsewhere in the same file", "the resolved function is remembered under a key coarser than the code object",
          [{"co_firstlineno": K(10), "co_qualname": K("A.f")}, {"co_firstlineno": K(40), "co_qualname": K("B.f"), "co_code": K(b"\x97\x00d\x01S\x00")}]),
+        ("generated code: two functions of the same name at the same line of the same pseudo-file (every @dataclass __init__ is `<string>`, line 2; functions exec'd from one template)",
+         "the resolved function is remembered under (file, line, name) or something as coarse: generated functions share all three",
+         [{"co_filename": K("<string>"), "co_firstlineno": K(2), "co_name": K("__init__"), "co_qualname": K("Point.__init__")},
+          {"co_filename": K("<string>"), "co_firstlineno": K(2), "co_name": K("__init__"), "co_qualname": K("Label.__init__"), "co_code": K(b"\x97\x00d\x01S\x00")}]),
         ("the same function again (a third call, after the other one)", "the remembered function is not the one resolved for this code object",
          [{"co_filename": K("/src/app/a/mod.py")}, {"co_filename": K("/src/app/b/mod.py")}, {"co_filename": K("/src/app/a/mod.py")}]),
     ]
